@@ -127,6 +127,12 @@ Proof. reflexivity. Qed.
 Lemma const_stream_version : c_OVNI_STREAM_VERSION = 1.
 Proof. reflexivity. Qed.
 
+Lemma format_constants :
+  c_OVNI_EV_JUMBO = 16 /\ c_sizeof_struct_ovni_ev_header = 12 /\ c_sizeof_union_ovni_ev_payload = 16 /\
+  c_sizeof_struct_ovni_stream_header = 8 /\ c_OVNI_STREAM_VERSION = 1 /\ stream_header_image = STREAM_HEADER /\
+  64 <= c_OVNI_MAX_EV_BUF.
+Proof. repeat split; vm_compute; congruence. Qed.
+
 (* ------------------------------------------------------------------ the flag nibble *)
 
 (* ovni_payload_size only looks at the flags of a non-jumbo event *)
@@ -334,6 +340,9 @@ Proof.
   cbn [app] in S1. destruct (S1 H) as (ev & E & B & ?). exists ev. split; [exact E|]. split; [exact B|].
   cbn in *. tauto.
 Qed.
+
+Theorem build_accepts m c v chunks : chunks_okb chunks = true -> exists ev, build m c v chunks = Ret ev.
+Proof. intros H. destruct (build_ok m c v chunks H) as (ev & E & _). exists ev. exact E. Qed.
 
 Theorem build_die m c v chunks : chunks_okb chunks = false -> build m c v chunks = Die.
 Proof.
